@@ -75,7 +75,7 @@ func EqualValues(a, b interface{}) error {
 	c := &cmp{w2g: map[unsafe.Pointer]unsafe.Pointer{}, g2w: map[unsafe.Pointer]unsafe.Pointer{}, aliasing: true}
 	av, bv := reflect.ValueOf(a), reflect.ValueOf(b)
 	if !av.IsValid() || !bv.IsValid() {
-		if av.IsValid() != bv.IsValid() {
+		if av.IsValid() != bv.IsValid() && !emptyString(av) && !emptyString(bv) {
 			return fail("", "one side nil: %v vs %v", a, b)
 		}
 		return nil
@@ -469,6 +469,10 @@ func (c *cmp) static(path string, wv, gv reflect.Value, strictDyn bool) error {
 				// an absent string equals the empty string: key "" may come back as a null key
 				g = gv.MapIndex(reflect.Zero(gv.Type().Key()))
 			}
+			if !g.IsValid() && it.Key().Kind() == reflect.Interface && it.Key().IsNil() {
+				// ... and a null key may come back as the key ""
+				g = gv.MapIndex(reflect.ValueOf(""))
+			}
 			kp := fmt.Sprintf("%s[%v]", path, clip(fmt.Sprint(it.Key().Interface())))
 			if !g.IsValid() {
 				return fail(kp, "key missing in result")
@@ -481,7 +485,8 @@ func (c *cmp) static(path string, wv, gv reflect.Value, strictDyn bool) error {
 		we, ge := wv.Elem(), gv.Elem()
 		if strictDyn {
 			if !we.IsValid() || !ge.IsValid() {
-				if we.IsValid() != ge.IsValid() {
+				// an absent string equals the empty string
+				if we.IsValid() != ge.IsValid() && !emptyString(we) && !emptyString(ge) {
 					return fail(path, "one side nil: %s vs %s", short(we), short(ge))
 				}
 				return nil
@@ -524,4 +529,8 @@ func clipN(s string, n int) string {
 		return s[:n] + "..."
 	}
 	return s
+}
+
+func emptyString(v reflect.Value) bool {
+	return v.IsValid() && v.Kind() == reflect.String && v.Len() == 0
 }
